@@ -7,7 +7,10 @@ from .templates import TEMPLATES
 
 INSERT = ["{", "}", "(", ")", "[", "]", ";", "=", ":", "in", "let", "then", "@", ",", "\"", "''", "${", "."]
 NON_NIX = ["", " ", "\n", "hello world", "<html>", "{ a = 1 }", "let", "a = 1;", "1 +", "}{", ")", "[ 1", "\"abc",
-           "''abc", "${", "#", "/* open", "a.b.", "{ inherit; }}", "if a then b", "{ a, b }", "x: ", "@", "\x00", "é = 1;"]
+           "''abc", "${", "#", "/* open", "a.b.", "{ inherit; }}", "if a then b", "{ a, b }", "x: ", "@", "\x00", "é = 1;",
+           # string-shaped texts that are not well-formed strings; whitespace Python strips and Nix rejects
+           '"x\\"', '"\\"', '"a\\\\"b"', '"C:\\dir\\"', "\u00a0", "  \u2028\n", "\x1f", "\x85", "\u3000", "\n\x1c\n", "\ufeff",
+           "\x0b", "\x0c"]
 WRAP = [("", ""), ("\n", ""), ("", "\n"), ("  ", "  \n\n"), ("\n\n# c\n", "\n")]
 
 
